@@ -436,6 +436,12 @@ func tagComment17(r *rand.Rand, f feat) string {
 	if f.odd && r.IntN(3) == 0 {
 		sb.WriteString(pick(r, []string{",", ", x y:z", ", :v", " a:b", ",,k:", ", k :v", ":"}))
 	}
+	if f.odd && r.IntN(3) == 0 {
+		// a part that is skipped (its name has a blank) followed by a tag whose `name:` also
+		// occurs inside the skipped part
+		w := word17(r, feat{})
+		return words17(r, f, 2) + " " + word17(r, feat{}) + w + ":" + word17(r, f) + pick(r, []string{", ", ","}) + w + ":" + word17(r, f) + ", " + sb.String()
+	}
 	return sb.String()
 }
 
